@@ -129,6 +129,9 @@ def out_ops_shape_rule(chk, src, rule):
             super().__init__("OpTuple")
             self.symbol, self.qn, self.factor = symbol, qn, factor
 
+        def _replace(self, **kw):
+            return OT(kw.get("symbol", self.symbol), qn=kw.get("qn", self.qn), factor=kw.get("factor", self.factor))
+
     class Tab(Sym):
         def __init__(self, rows):
             super().__init__("table")
@@ -168,8 +171,10 @@ def out_ops_shape_rule(chk, src, rule):
     class Cell(list):
         pass
 
-    def full(shape, fill, **k):
-        return [[None] * shape[1] for _ in range(shape[0])]
+    from ..xnp import ObjGrid
+
+    def full(shape, fill=None, **k):
+        return ObjGrid(shape, fill)
 
     def general(table, in_ops, factor, primary_ops, algo="qr"):
         n_bonds = table.shape[1] - 1
